@@ -15,6 +15,8 @@ def run_zones(ctx, prog, body, pre, pre_text, rule="R18", floor=None):
     body = inline_calls(prog, body, helper_filter(prog))
     from .facts import eliminate_static_refs
     body = eliminate_static_refs(prog, body)
+    from .facts import thread_constant_flags
+    body = thread_constant_flags(prog, body)
     za = ZoneAnalysis(body, pre)
     obs = za.run()
     ordinal = {}
